@@ -23,6 +23,7 @@ void h_first_update(void) {
   __CPROVER_assume(g_fqbin >= 1 && g_fqbin <= MI_BIN_FULL && g_fw < MI_PAGES_DIRECT);
   g_uheap->pages[g_fqbin].first = (vc_nd_bool() ? NULL : (vc_nd_bool() ? p1 : p2));
   g_fwbin = _mi_bin(g_fw * sizeof(uintptr_t));           /* the real bin function (C16) */
+  g_fqself = _mi_bin(g_uheap->pages[g_fqbin].block_size);
   g_fold = g_uheap->pages_free_direct[g_fw];
   mi_heap_queue_first_update(g_uheap, &g_uheap->pages[g_fqbin]);
   VC_REACH();
